@@ -2589,6 +2589,9 @@ coap_cancel_session_messages(coap_context_t *context, coap_session_t *session,
   while (context->sendqueue && context->sendqueue->session == session) {
     q = context->sendqueue;
     context->sendqueue = q->next;
+    /* times are relative: what is behind q keeps its deadline */
+    if (q->next)
+      q->next->t += q->t;
     coap_log_debug("** %s: mid=0x%04x: removed (3)\n",
                    coap_session_str(session), q->id);
     if (q->pdu->type == COAP_MESSAGE_CON) {
@@ -2606,6 +2609,8 @@ coap_cancel_session_messages(coap_context_t *context, coap_session_t *session,
   while (q) {
     if (q->session == session) {
       p->next = q->next;
+      if (q->next)
+        q->next->t += q->t;
       coap_log_debug("** %s: mid=0x%04x: removed (4)\n",
                      coap_session_str(session), q->id);
       if (q->pdu->type == COAP_MESSAGE_CON) {
@@ -2637,6 +2642,9 @@ coap_cancel_all_messages(coap_context_t *context, coap_session_t *session,
     if (q->session == session &&
         coap_binary_equal(&q->pdu->actual_token, token)) {
       *p = q->next;
+      /* times are relative: what is behind q keeps its deadline */
+      if (q->next)
+        q->next->t += q->t;
       coap_log_debug("** %s: mid=0x%04x: removed (6)\n",
                      coap_session_str(session), q->id);
       if (q->pdu->type == COAP_MESSAGE_CON && session->con_active) {
